@@ -15,8 +15,13 @@ def nudge(x, k):
     return ("d", b)
 
 
+ZEROS = [0, 0.0, -0.0, ("d", 1), ("d", 0x8000000000000001)]
+
+
 def rand_pair(rng):
     r = rng.random()
+    if r < 0.06:
+        return rng.choice(ZEROS), rng.choice(ZEROS)
     if r < 0.25:
         a = gen.rand_doc(rng, 3)
         return a, a
